@@ -42,6 +42,11 @@ pub struct Searcher {
     timer: SearchTimer,
     repetition: RepetitionTable,
     history: HistoryTable,
+    /// Probes that returned a result from an entry deeper than / as deep as requested.
+    #[cfg(flounder_verif)]
+    pub verif_deeper_hits: std::cell::Cell<u64>,
+    #[cfg(flounder_verif)]
+    pub verif_same_depth_hits: std::cell::Cell<u64>,
 }
 
 impl Searcher {
@@ -56,6 +61,10 @@ impl Searcher {
             timer: SearchTimer::new(),
             repetition: RepetitionTable::new(),
             history: HistoryTable::new(),
+            #[cfg(flounder_verif)]
+            verif_deeper_hits: std::cell::Cell::new(0),
+            #[cfg(flounder_verif)]
+            verif_same_depth_hits: std::cell::Cell::new(0),
         }
     }
 
@@ -290,6 +299,21 @@ impl Searcher {
             return None;
         }
 
+        #[cfg(flounder_verif)]
+        {
+            let used = match entry.bounds {
+                Bounds::Exact => true,
+                Bounds::Lower => max(alpha, entry.eval) >= beta,
+                Bounds::Upper => alpha >= min(beta, entry.eval),
+            };
+            if used && entry.depth > depth {
+                self.verif_deeper_hits.set(self.verif_deeper_hits.get() + 1);
+            } else if used {
+                self.verif_same_depth_hits
+                    .set(self.verif_same_depth_hits.get() + 1);
+            }
+        }
+
         match entry.bounds {
             Bounds::Exact => {
                 return Some(SearchResult::new(entry.eval, entry.best_move));
@@ -414,6 +438,78 @@ impl Searcher {
     #[allow(dead_code)]
     fn push_position(&mut self, board: &Board) {
         self.repetition.push(self.zobrist.hash(board));
+    }
+}
+
+#[cfg(flounder_verif)]
+impl Searcher {
+    pub fn verif_set_node_limit(&mut self, limit: Option<u64>) {
+        self.timer.verif_node_limit = limit;
+    }
+
+    pub fn verif_timer(&self) -> &SearchTimer {
+        &self.timer
+    }
+
+    pub fn verif_repetition_len(&self) -> usize {
+        self.repetition.len()
+    }
+
+    pub fn verif_is_repetition_draw(&self, board: &Board) -> bool {
+        self.is_draw_by_repetition(board)
+    }
+
+    pub fn verif_push_position(&mut self, board: &Board) {
+        self.repetition.push(self.zobrist.hash(board));
+    }
+
+    pub fn verif_hash(&self, board: &Board) -> u64 {
+        self.zobrist.hash(board)
+    }
+
+    pub fn verif_set_zobrist(&mut self, zobrist: ZobristTable) {
+        self.zobrist = zobrist;
+    }
+
+    pub fn verif_zobrist(&self) -> &ZobristTable {
+        &self.zobrist
+    }
+
+    pub fn verif_tt_entries(&self) -> Vec<(u64, crate::transposition::Entry)> {
+        self.transposition_table.verif_entries()
+    }
+
+    pub fn verif_tt(&mut self) -> &mut TranspositionTable {
+        &mut self.transposition_table
+    }
+
+    /// One full-window search at exactly `depth` (no shallower iterations), timer started.
+    pub fn verif_search_fixed(&mut self, board: &Board, depth: u8) -> (i32, Option<Move>) {
+        self.timer.start(None);
+        let result = self.search_position(board, depth);
+        (result.score, result.best_move)
+    }
+
+    /// The quiescence value of a position with the full window.
+    pub fn verif_quiescence(&mut self, board: &Board, alpha: i32, beta: i32) -> i32 {
+        self.search_until_quiet(board, alpha, beta)
+    }
+
+    /// The move ordering the search would use (for the permutation property).
+    pub fn verif_order_moves(&self, board: &Board, moves: &mut [Move], tt_move: Option<Move>, ply: u8) {
+        self.order_moves(board, moves, tt_move, ply)
+    }
+
+    pub fn verif_order_captures(&self, moves: &mut [Move], board: &Board) {
+        self.order_captures(moves, board)
+    }
+
+    pub fn verif_killers(&mut self) -> &mut KillerMoves {
+        &mut self.killer_moves
+    }
+
+    pub fn verif_history(&mut self) -> &mut HistoryTable {
+        &mut self.history
     }
 }
 
